@@ -24,7 +24,7 @@ TASK: produce ONE realistic change (the kind of slip or well-meant refactoring/o
 
 Requirements, all of which you must verify yourself:
  1. Test suite passes with the change: `cd {wt} && /venv/bin/python -m pytest -q -p no:cacheprovider -x -n 6 --timeout=900` (542 tests incl. doctests and README.rst; takes 1-3 minutes; must be 0 failures). If a test fails, choose a different change.
- 2. Write {out}/demo.py : a small standalone program that exercises the library (imports permuta normally) and exits 0 when the property holds for what it exercises and exits 1 (printing what went wrong) when it does not. It must exit 1 with your change and exit 0 on the unchanged library (verify both: `git stash` / `git stash pop` or `git diff > patch; git checkout -- .`). The demo should judge against an independent definition (brute force), not against stored outputs.
+ 2. Write {out}/demo.py : a small standalone program that exercises the library (imports permuta normally) and exits 0 when the property holds for what it exercises and exits 1 (printing what went wrong) when it does not. It must exit 1 with your change and exit 0 on the unchanged library (verify both with `git diff > patch.diff; git apply -R patch.diff; ...; git apply patch.diff` - do NOT use `git stash`: the stash is shared by all worktrees of the repository). The demo should judge against an independent definition (brute force), not against stored outputs.
  3. Write {out}/patch.diff = output of `git -C {wt} diff` (the change, relative to the worktree root, appliable with `git apply`).
  4. Write {out}/meta.json with keys: property ("{pid}"), summary (one or two sentences: what was changed), needs (what specific input/sequence/interleaving is needed for the breakage to show), files (list), tests_pass (true, with the pytest summary line), demo_with_change_exit (1), demo_without_change_exit (0).
 Leave the worktree with the change applied. In your final answer give a 5-line summary. Do not commit anything.""")
